@@ -30,6 +30,10 @@ POLLUTERS = [
     ('parser { "a" }', []),                                                # syntax error
     ('out int n = 0; parser { foreach { /\\d+/; } do { n = [n * 10 + ($last - 48)]; } optional { "x"; } end; }', ["-feof-support", "-O3"]),
     ('out enum{A,B} e; out bool f = false; parser { try { case { "ab", "cd" -> { e = B; } /[^a-c]x/ -> { f = true; } } } catch { wait "\\n"; } }', ["-O0"]),
+    # rejected from INSIDE a macro expansion (whatever the expansion had bound or pushed must not survive), with parameter names other programs use as globals
+    ('out int total = 0; out str[4] other; hook hh; macro mm(out n, out s, out m, out k, hook h, hook g, expr e, match t) { n = 7; s += t; h(); nosuch(); } parser { "a"; mm(total, other, total, total, hh, hh, 5, "zz"); }', []),
+    ('macro a() { b(); } macro b() { a(); } parser { "x"; a(); }', []),
+    ('out int x = 0; macro outer(expr x, macro leaf) { leaf(); x = [x + 1]; } macro lf() { "q"; undefined_thing(); } parser { "a"; outer(3, lf); }', []),
 ]
 
 
@@ -273,7 +277,9 @@ def child_main(job_path):
     pol = job["polluters"]
     seqs = [(i,) for i in range(len(pol))] + list(itertools.product(range(len(pol)), repeat=2))
     if job.get("few_histories"):
-        seqs = seqs[:len(pol)] + seqs[len(pol)::9]
+        seqs = seqs[:len(pol)] + seqs[len(pol)::11]
+    elif not job.get("pairs"):
+        seqs = seqs[:len(pol)] + seqs[len(pol)::2]       # quick tier: every single polluter, every second ordered pair
     for seq in seqs:
         for i in seq:
             compile_(pol[i][0], pol[i][1])
